@@ -175,6 +175,7 @@ func checkC08(w *World, r *Run) {
 
 	checkC08Reuse(w, r, ruleReuse)
 	checkC08SQL(w, r, ruleSQL)
+	checkC08ReconciliationCountsRows(w, r, ruleSQL)
 	checkC08Book(w, r, ruleBook)
 
 	checkTxFinalization(w, r)
